@@ -5,7 +5,8 @@ EXTENDS BreakCycles, Json
 CONSTANTS NComp,        \* number of compound nodes (after the two atoms)
           RefKind,      \* 1: a, b, -b, compounds; 2: also negated compounds; 3: a, -b, compounds (large instances)
           MaxQ,         \* number of labelled nodes processed
-          WithEvidence  \* the last labelled node is an evidence node (fresh translation table)
+          WithEvidence, \* the last labelled node is an evidence node (fresh translation table)
+          WithEvv       \* evidence propagation is on: every SOUND set of propagated values is tried
 
 Atoms2 == << AtomNode("a"), AtomNode("b") >>
 CompIds == 3..(2 + NComp)
@@ -26,12 +27,18 @@ QuerySeqsOf(g) == { [ i \in DOMAIN s |-> [ key |-> s[i],
                                            phase |-> IF WithEvidence /\ i = Len(s) /\ i > 1 THEN 2 ELSE 1 ] ]
                     : s \in { x \in QSeqs : AbsKey(x[1]) = 3 } }
 
+\* the evidence loop of break_cycles runs AFTER the queries, but lookup_evidence was filled before break_cycles is called
+PartialMaps == UNION { [ S -> {0, FKey} ] : S \in SUBSET (1..(2 + NComp)) }
 MCInit == /\ src \in { g \in Graphs : Relevant(g) }
           /\ queries \in QuerySeqsOf(src)
+          /\ evv \in (IF WithEvv THEN PartialMaps ELSE { << >> })
+          /\ EvvSound
+          /\ (WithEvv => \E asg \in SUBSET Ids : Consistent(WFM(GraphRules("s", src, asg))))     \* the evidence is satisfiable
           /\ InitRest
 MCSpec == MCInit /\ [][Next]_vars
 
 Done == qi > Len(queries)
-Proj == [ src |-> src, queries |-> queries, results |-> results, nodes |-> st.nodes ]
+Proj == [ src |-> src, queries |-> queries, results |-> results, nodes |-> st.nodes,
+          evv |-> [ n \in 1..Len(src) |-> IF n \in DOMAIN evv THEN evv[n] ELSE -1 ] ]
 Export == Done => PrintT(<<"HIST", ToJson(Proj)>>)
 =============================================================================
